@@ -63,3 +63,9 @@ Proof.
   split; [repeat split; reflexivity|]. eexists. eexists. split; [vm_compute; reflexivity|].
   split; [vm_compute; reflexivity|]. vm_compute. repeat split; reflexivity.
 Qed.
+
+(* stale face corners: 3 records for a face list with 6 incidences *)
+Example ex_stale_face_corners : exists r',
+  prepare (true, true) (mkRaw [[0;0;0];[1;0;0];[0;1;0];[1;1;0]] [] [] [[0;1;2];[1;3;2]] [0;1;2] [0;0;0] [] [] [] [] []) = Ok r'
+  /\ fc_elem r' = [0;1;2;1;3;2] /\ fc_adj r' = [0;0;0;1;1;1].
+Proof. eexists. split; [vm_compute; reflexivity|]. split; reflexivity. Qed.
